@@ -49,6 +49,9 @@ public:
             return false;
         }
 
+        // Contexts being bound concurrently re-read their parent's state under this mutex when they detect
+        // a propagation in progress (see bind_to_impl); hold it until the whole forest has been walked.
+        context_state_propagation_mutex_type::scoped_lock propagation_lock(the_context_state_propagation_mutex);
         // Advance global state propagation epoch
         ++the_context_state_propagation_epoch;
         // Propagate to all workers and external threads and sync up their local epochs with the global one
